@@ -1257,7 +1257,7 @@ package jsonpath
 // entry state of a function (sound there for every function that leaves the `next` links alone).
 //@ smt (declare-fun PN (Val) Bool)
 //@ spec PNmulti(m *syntaxChildMultiIdentifier) bool = m != nil && wf(m.identifiers) && (forall k {elemAt(m.identifiers, k)} :: off(m.identifiers) <= k && k < off(m.identifiers) + len(m.identifiers) ==> nodeOK(elemAt(m.identifiers, k))) && (m.isAllWildcard ==> m.unionQualifier != nil && m.unionQualifier.syntaxBasicNode != nil)
-//@ spec PNdef(v any) bool = nodeOK(v) && 0 <= chainLen(v) && (basicOf(v).next != nil ==> PN(basicOf(v).next) && chainLen(basicOf(v).next) < chainLen(v)) && (isType(v, *syntaxChildMultiIdentifier) ==> PNmulti(asType(v, *syntaxChildMultiIdentifier))) && (isType(v, *syntaxAggregateFunction) ==> asType(v, *syntaxAggregateFunction) != nil && (asType(v, *syntaxAggregateFunction).param != nil ==> PN(asType(v, *syntaxAggregateFunction).param) && chainLen(asType(v, *syntaxAggregateFunction).param) < chainLen(v)))
+//@ spec PNdef(v any) bool = nodeOK(v) && 0 <= chainLen(v) && chainWalk(v) && (basicOf(v).next != nil ==> PN(basicOf(v).next) && chainLen(basicOf(v).next) < chainLen(v)) && (isType(v, *syntaxChildMultiIdentifier) ==> PNmulti(asType(v, *syntaxChildMultiIdentifier))) && (isType(v, *syntaxAggregateFunction) ==> asType(v, *syntaxAggregateFunction) != nil && (asType(v, *syntaxAggregateFunction).param != nil ==> PN(asType(v, *syntaxAggregateFunction).param) && chainLen(asType(v, *syntaxAggregateFunction).param) < chainLen(v)))
 
 // LK(v): the chain hanging off v has been linked (after setNodeChain): every aggregate function on it has its parameter
 // path, and that path is linked too.  Assumed where action 0 fires (hand-written rule contract), unfolded like PN.
@@ -1319,19 +1319,19 @@ package jsonpath
 //@ func (*jsonPathParser).deleteRootIdentifier
 //@   props C02 C19 C14 C18
 //@   parsetime
-//@   trusted
 //@   requires p != nil
+//@   unfold forall v Val {PN(v)} :: PN(v) ==> PNdef(v)
 //@   before setValueGroup#1 assert moved: basicOf(targetNode).valueGroup && recv == basicOf(targetNode).next
 // C18 (`$` left out): a root identifier followed by a step is dropped - what comes back is the step that followed it,
 // with the links of the chain unchanged; every other node comes back itself
-//@   proves dropped: (isType(targetNode, *syntaxRootIdentifier) || isType(targetNode, *syntaxCurrentRootIdentifier)) && old(basicOf(targetNode).next) != nil ==> ret == old(basicOf(targetNode).next)
-//@   proves kept: !((isType(targetNode, *syntaxRootIdentifier) || isType(targetNode, *syntaxCurrentRootIdentifier)) && old(basicOf(targetNode).next) != nil) ==> ret == targetNode
-//@   proves links: (isType(targetNode, *syntaxRootIdentifier) || isType(targetNode, *syntaxCurrentRootIdentifier)) ==> (forall b {F_syntaxBasicNode_next[b]} :: F_syntaxBasicNode_next[b] == old(F_syntaxBasicNode_next[b]))
-//@   ensures chain: nodeWF(ret)
+//@   ensures dropped: (isType(targetNode, *syntaxRootIdentifier) || isType(targetNode, *syntaxCurrentRootIdentifier)) && old(basicOf(targetNode).next) != nil ==> ret == old(basicOf(targetNode).next)
+//@   ensures kept: !((isType(targetNode, *syntaxRootIdentifier) || isType(targetNode, *syntaxCurrentRootIdentifier)) && old(basicOf(targetNode).next) != nil) ==> ret == targetNode
+//@   ensures links: (isType(targetNode, *syntaxRootIdentifier) || isType(targetNode, *syntaxCurrentRootIdentifier)) ==> (forall b {F_syntaxBasicNode_next[b]} :: F_syntaxBasicNode_next[b] == old(F_syntaxBasicNode_next[b]))
+//@   ensures chain: ret != nil ==> PN(ret) && chainLen(ret) <= chainLen(targetNode)
 //@   unfold forall v Val {LK(v)} :: LK(v) ==> LKdef(v)
-//@   proves linked: LK(targetNode) ==> LK(ret)
-//@   requires nodeOK(targetNode) && 0 <= chainLen(targetNode) && chainWalk(targetNode)
-//@   decreases chainLen(targetNode)
+//@   ensures linked: LK(targetNode) ==> LK(ret)
+//@   requires targetNode != nil ==> PN(targetNode)
+//@   decreases targetNode == nil ? 0 : chainLen(targetNode) + 1
 
 //@ func (*jsonPathParser).loadParams
 //@   props C02 C19
@@ -1617,6 +1617,9 @@ package jsonpath
 //@   unfold forall v Val {PN(v)} :: PN(v) ==> PNdef(v)
 //@   unfold forall v Val {LK(v)} :: LK(v) ==> LKdef(v)
 //@   before setConnectedText#2 assert suffix: arg0 == basicOf(recv).text + (basicOf(recv).next != nil ? basicOf(basicOf(recv).next).connectedText : (len(postfix) > 0 ? postfix[0] : "")) && recv == targetNode
+//@   before setConnectedText#1 assert rec: arg1 == basicOf(targetNode).next
+//@   before setConnectedText#3 assert twin: arg1 == basicOf(targetNode).connectedText && arg0 == asType(targetNode, *syntaxChildMultiIdentifier).unionQualifier.syntaxBasicNode
+//@   before setConnectedText#4 assert param: arg1 == asType(targetNode, *syntaxAggregateFunction).param && len(arg2) == 1 && arg2[0] == basicOf(targetNode).connectedText
 //@   requires PN(targetNode) && LK(targetNode)
 //@   decreases chainLen(targetNode)
 
